@@ -1544,6 +1544,9 @@ func (c *c06Case) run() (cfg, events, obs string) {
 	if o.script == "prefixdrop" {
 		c.scriptPrefixDrop()
 	}
+	if o.script == "replace" { // C04 (harness/cmd/corr/c04.go)
+		c.scriptReplace()
+	}
 	if o.script == "firstvalue" {
 		c.scriptFirstValue()
 	}
